@@ -1332,6 +1332,9 @@ class Ctx:
             else:
                 self.stats['unknown'] += 1
                 rec['status'] = 'unknown'
+                if self.hints and all(k in self.hints for k in self.inputs if not k.startswith('tie!')):
+                    # undecided: let the replay on the real package look at the nominal values of the slice (it can only confirm, never excuse)
+                    rec['probe'] = {k: str(v) for k, v in self.hints.items() if k in self.inputs}
         return rec['status']
 
     def path_model(self, timeout_ms=None):
